@@ -85,7 +85,58 @@ def make_ops(rng, doc, scratch):
     def op_misc():
         w = rng.choice(['metacomments', 'metacomments_key', 'spine_types', 'monophonic', 'iter', 'measures_count', 'first_measure',
                         'spine_ids', 'header_nodes', 'voices', 'voices_clean', 'graph_stdout', 'graph_file', 'next', 'leaves',
-                        'export_options_reuse', 'spine_count'])
+                        'export_options_reuse', 'spine_count', 'dump_file', 'deprecated_export', 'clone_export', 'match_self',
+                        'header_stage', 'deprecated_spine_types', 'tokens_to_encodings', 'partial_iteration'])
+        if w == 'dump_file':
+            enc = rng.choice(kpx.ENCODINGS)
+
+            def g(d):
+                p = os.path.join(scratch, f'o{rng.randrange(10 ** 9)}', 'out.krn')
+                kp.dump(d, p, encoding=enc)
+                with open(p, encoding='utf-8', newline='') as fh:
+                    s_ = fh.read()
+                shutil.rmtree(os.path.dirname(p), ignore_errors=True)
+                return s_
+            return (f'dump(doc, file, {enc.name})', g, None)
+        if w == 'deprecated_export':
+            o = kp.ExportOptions(spine_types=list(types), kern_type=rng.choice(kpx.ENCODINGS),
+                                 token_categories=[c for c in TC if rng.random() < 0.8])
+            import copy
+            o0 = copy.deepcopy(o)
+
+            def g(d):
+                import warnings
+                with warnings.catch_warnings():
+                    warnings.simplefilter('ignore')
+                    r = kp.export(d, o)
+                return (r, o == o0)
+            return ('export(doc, ExportOptions) [deprecated API, options object compared]', g, None)
+        if w == 'clone_export':
+            return ('dumps(doc.clone())', lambda d: kp.dumps(d.clone()), None)
+        if w == 'match_self':
+            return ('Document.match(doc, doc)', lambda d: (kp.Document.match(d, d), kp.Document.match(d, d, check_core_spines_only=True)), None)
+        if w == 'header_stage':
+            return ('get_header_stage()', lambda d: [n_.token for n_ in d.get_header_stage()], None)
+        if w == 'deprecated_spine_types':
+            def g(d):
+                import warnings
+                with warnings.catch_warnings():
+                    warnings.simplefilter('ignore')
+                    return kp.get_spine_types(d, ['**kern'])
+            return ('get_spine_types(doc, [**kern]) [deprecated API]', g, None)
+        if w == 'tokens_to_encodings':
+            return ('tokens_to_encodings(get_all_tokens())', lambda d: kp.Document.tokens_to_encodings(d.get_all_tokens()), None)
+        if w == 'partial_iteration':
+            def g(d):
+                it = iter(d)
+                first = next(it, None)
+                out = []
+                for m in d:
+                    out.append(m)
+                    if len(out) == 2:
+                        break
+                return (first, out)
+            return ('partial iteration (next(iter(doc)); loop with break)', g, None)
         if w == 'metacomments':
             return ('get_metacomments()', lambda d: d.get_metacomments(), None)
         if w == 'metacomments_key':
